@@ -764,7 +764,7 @@ def check_C20(ctx):
     vlib.build_harness_race(ctx)
     vlib.tlc_check(ctx, "InflectorCache", "InflectorCache_A_%s.cfg" % t, workers=8)
     vlib.tlc_expect_violation(ctx, "InflectorCache", "InflectorCache_A_seeddemo.cfg", "C20_ReturnsF")
-    proved = vlib.tlaps_prove(ctx, "proofs/MemoCacheProof.tla") if not ctx.quick() else 0
+    proved = vlib.tlaps_prove(ctx, "proofs/InflectorCacheProof.tla", with_modules=("InflectorCache.tla",)) if not ctx.quick() else 0
     res = run_family(ctx, "inflect", "Inflector", ["Inflector_gen.cfg"], "InflectorTrace",
                      rand_n=3000 if ctx.quick() else 45000, shard=4000)
     fails = vlib.collect_failures(res["trace"], res["bad"], "inflect", only_prefix="C20")
@@ -777,7 +777,7 @@ def check_C20(ctx):
         "distinct_nontrivial": _distinct(tr, lambda r: r["case"]["kind"] == "conc" or r["conc"]["law"] or r["case"]["kind"] == "random",
                                          key=lambda r: json.dumps([r["case"], r["conc"].get("text")], sort_keys=True)),
         "rule": "InflectorCache.tla: every interleaving of the LoadOrStore/OnceValue protocol for the tier's goroutines x keys x calls (TLC, with "
-                "fairness for 'every caller returns'); thorough tier: proofs/MemoCacheProof.tla proves with TLAPS, for any number of goroutines, keys and calls, that every returned "
+                "fairness for 'every caller returns'); thorough tier: proofs/InflectorCacheProof.tla proves with TLAPS over InflectorCache.tla itself, for any number of goroutines, keys and calls, that every returned "
                 "value is the function's value and no waiter is left behind. Inflector.tla: every irregular word of both rule tables x {lower,UPPER,Title} x 5 prefixes x 6 "
                 "boundaries, uninflected samples, as initial states; each replayed into Pluralize/Singularize (twice, plus the word alone); seeded random "
                 "strings incl. case-folding specials; concurrent rounds (4-8 goroutines, overlapping keys, cold cache, race detector on) recorded as "
